@@ -129,6 +129,21 @@ check("C17", "exploration",
       "A data race that neither crashes nor changes a result is invisible here (no ThreadSanitizer); schedules are those the OS produced.",
       "TLA+ spec (Shared) + TLC MC of interleavings + TLC-generated histories replayed + TLC observation-set validation of real threads", "§4 C17")
 
+check("C18", "model_checking",
+      "Typing.tla states which (operation, key kind, own/other version) program points must type-check; TLC checks the matrix's "
+      "meta-properties and emits one probe per point; each probe is instantiated per backend crate and type-checked by rustc against the "
+      "freshly built library (744 programs); TLC validates rustc's verdict and that rejections are type/trait/privacy errors.",
+      "Trusted: TLC, rustc, the probe templates (kept honest by the expected-accept siblings of the same template and by the error-code filter).",
+      "TLA+ spec (Typing) + TLC enumeration of the matrix + rustc as the implementation + TLC observation-set validation", "§4 C18")
+check("C19", "model_checking",
+      "Features.tla reads the feature tables of the working tree's Cargo.toml files, computes the closure of every feature subset (2052 "
+      "states), checks monotonicity and the documented implications, and emits the distinct closures; each is `cargo check`ed (quick: one "
+      "crate completely + named subsets of the others; thorough: all 184) and reduced-feature probe binaries replay full-build tokens, "
+      "blobs and ids; TLC validates the outcomes.",
+      "Trusted: TLC, cargo/rustc; `cargo check --lib` stands for 'builds'. Behaviour probes cover verify-only and decrypt-only builds in "
+      "quick and nine feature sets in thorough.",
+      "TLA+ spec (Features) + TLC closure lattice + cargo as the implementation + TLC observation-set validation", "§4 C19")
+
 
 def na(pid, reason):
     NOT_APPLICABLE[pid] = reason
